@@ -51,41 +51,62 @@ def workdir(tag):
 
 
 # ---------------------------------------------------------------- translator
-def run_translator():
-    """Regenerate coq/**/gen/*.v from REPO's working tree. Returns dict
-    {genfile: {"status": "ok"|"unrecognised", "detail": ...}}."""
-    with Lock("translator"):
-        exe = os.path.join(TRANSLATOR, "bin", "gmqtr")
-        p = sh(["go", "build", "-o", exe, "."], cwd=TRANSLATOR, env=GOENV)
-        if p.returncode != 0:
-            raise Infra("translator does not build:\n" + p.stderr[-3000:])
-        out = os.path.join(WORK, "gen-%d" % os.getpid())
-        shutil.rmtree(out, ignore_errors=True)
-        os.makedirs(out)
-        p = sh([exe, "-repo", REPO, "-out", out], timeout=300)
-        status = {}
-        try:
-            status = json.loads(p.stdout)
-        except Exception:
-            raise Infra("translator output unreadable:\n%s\n%s" % (p.stdout[-2000:], p.stderr[-2000:]))
-        # install write-if-changed so make only rebuilds what changed
-        for root, _, files in os.walk(out):
-            for f in files:
-                src = os.path.join(root, f)
-                rel = os.path.relpath(src, out)
-                dst = os.path.join(COQ, rel)
-                os.makedirs(os.path.dirname(dst), exist_ok=True)
-                new = open(src, "rb").read()
-                old = open(dst, "rb").read() if os.path.exists(dst) else None
-                if new != old:
-                    with open(dst, "wb") as fh:
-                        fh.write(new)
-        shutil.rmtree(out, ignore_errors=True)
-        return status
+def run_translator(names):
+    """Regenerate coq/**/gen/*.v from REPO's working tree with the named translators
+    (translator/cmd/<name>). Returns {"files": {genfile: {"status": "ok"|"unrecognised", "detail"}}, "shapes": {...}}."""
+    if isinstance(names, str):
+        names = [names]
+    merged = {"files": {}, "shapes": {}}
+    for name in names:
+        with Lock("translator-" + name):
+            exe = os.path.join(TRANSLATOR, "bin", name)
+            p = sh(["go", "build", "-o", exe, "./cmd/" + name], cwd=TRANSLATOR, env=GOENV)
+            if p.returncode != 0:
+                raise Infra("translator %s does not build:\n%s" % (name, p.stderr[-3000:]))
+            out = os.path.join(WORK, "gen-%s-%d" % (name, os.getpid()))
+            shutil.rmtree(out, ignore_errors=True)
+            os.makedirs(out)
+            p = sh([exe, "-repo", REPO, "-out", out], timeout=300)
+            try:
+                status = json.loads(p.stdout)
+            except Exception:
+                raise Infra("translator %s output unreadable:\n%s\n%s" % (name, p.stdout[-2000:], p.stderr[-2000:]))
+            # install write-if-changed so make only rebuilds what changed
+            with Lock("coq"):
+                for root, _, files in os.walk(out):
+                    for f in files:
+                        src = os.path.join(root, f)
+                        rel = os.path.relpath(src, out)
+                        dst = os.path.join(COQ, rel)
+                        os.makedirs(os.path.dirname(dst), exist_ok=True)
+                        new = open(src, "rb").read()
+                        old = open(dst, "rb").read() if os.path.exists(dst) else None
+                        if new != old:
+                            with open(dst, "wb") as fh:
+                                fh.write(new)
+            shutil.rmtree(out, ignore_errors=True)
+            merged["files"].update(status.get("files", {}))
+            merged["shapes"].update(status.get("shapes", {}))
+    return merged
 
 
 # ---------------------------------------------------------------- coq
+def coq_project():
+    """_CoqProject is derived: every .v under coq/ (sorted). Rewritten only when the set changes."""
+    vs = []
+    for root, dirs, files in os.walk(COQ):
+        dirs[:] = [d for d in dirs if not d.startswith(".")]
+        for f in files:
+            if f.endswith(".v") and not f.startswith("."):
+                vs.append(os.path.relpath(os.path.join(root, f), COQ))
+    text = "-Q . GMQ\n" + "\n".join(sorted(vs)) + "\n"
+    p = os.path.join(COQ, "_CoqProject")
+    if not os.path.exists(p) or open(p).read() != text:
+        open(p, "w").write(text)
+
+
 def coq_makefile():
+    coq_project()
     if not os.path.exists(os.path.join(COQ, "Makefile")) or \
             os.path.getmtime(os.path.join(COQ, "Makefile")) < os.path.getmtime(os.path.join(COQ, "_CoqProject")):
         sh(["coq_makefile", "-f", "_CoqProject", "-o", "Makefile"], cwd=COQ, check=True)
@@ -96,6 +117,10 @@ def coq_make(targets, timeout=1500):
     with Lock("coq"):
         coq_makefile()
         p = sh(["timeout", str(timeout), "make", "-j16"] + list(targets), cwd=COQ, timeout=timeout + 30)
+        if "No rule to make target" in p.stderr:
+            os.remove(os.path.join(COQ, "Makefile"))
+            coq_makefile()
+            p = sh(["timeout", str(timeout), "make", "-j16"] + list(targets), cwd=COQ, timeout=timeout + 30)
         return p.returncode == 0, (p.stdout + p.stderr)
 
 
@@ -236,8 +261,9 @@ def parse_coq_list(out, name):
 
 
 # ---------------------------------------------------------------- harness
-def build_harness(tags=BUILD_TAG):
-    """Build the Go harness against REPO's current working tree with the hook tag on."""
+def build_harness(name, tags=BUILD_TAG):
+    """Build harness/cmd/<name> against REPO's current working tree with the hook tag on.
+    Returns (exe, "") or (None, compiler output)."""
     with Lock("harness"):
         shutil.copyfile(os.path.join(REPO, "go.sum"), os.path.join(HARNESS, "go.sum"))
         gomod = open(os.path.join(HARNESS, "go.mod")).read()
@@ -245,8 +271,8 @@ def build_harness(tags=BUILD_TAG):
         gomod2 = re.sub(r"replace github.com/valinurovam/garagemq => \S+", want, gomod)
         if gomod2 != gomod:
             open(os.path.join(HARNESS, "go.mod"), "w").write(gomod2)
-        exe = os.path.join(HARNESS, "bin", "gmqh")
-        p = sh(["go", "build", "-tags", tags, "-o", exe, "./cmd/gmqh"], cwd=HARNESS, env=GOENV, timeout=900)
+        exe = os.path.join(HARNESS, "bin", name)
+        p = sh(["go", "build", "-tags", tags, "-o", exe, "./cmd/" + name], cwd=HARNESS, env=GOENV, timeout=900)
         if p.returncode != 0:
             return None, p.stderr[-4000:]
         return exe, ""
